@@ -1,6 +1,12 @@
-//! The `world` domain: entity lifecycle through the public API.
+//! The `world` domain: entity lifecycle and component storages through the public API.
+use crate::by_sid;
+use crate::comps::*;
 use specs::prelude::*;
+use specs::hibitset::BitSetLike;
+use specs::shrev::ReaderId;
+use specs::storage::{AccessMut, ComponentEvent, GenericWriteStorage, StorageEntry, Tracked};
 use specs::world::EntitiesRes;
+use std::collections::HashMap;
 use std::panic::{catch_unwind, AssertUnwindSafe};
 
 pub type Out = Vec<i64>;
@@ -14,32 +20,355 @@ fn enc_ents(tag: i64, l: &[Entity]) -> Out {
     o
 }
 
-struct Exec {
-    world: World,
-    hs: Vec<Entity>,
+pub struct Exec {
+    pub world: World,
+    pub hs: Vec<Entity>,
+    readers: HashMap<i64, Vec<ReaderId<ComponentEvent>>>,
+}
+
+// ---------------------------------------------------------------- generic storage ops
+
+fn reg<T: Tokish>(ex: &mut Exec)
+where
+    T::Storage: Default,
+{
+    ex.world.register::<T>();
+}
+fn reg_with<T: Tokish>(ex: &mut Exec)
+where
+    T::Storage: Default,
+{
+    ex.world.register_with_storage::<_, T>(Default::default);
+}
+fn reg_setup_read<T: Tokish>(ex: &mut Exec) {
+    <ReadStorage<T> as SystemData>::setup(&mut ex.world);
+}
+fn reg_setup_write<T: Tokish>(ex: &mut Exec) {
+    <WriteStorage<T> as SystemData>::setup(&mut ex.world);
+}
+
+fn opt_tok(tag: i64, o: Option<(u64, i64)>) -> Out {
+    match o {
+        Some((u, v)) => vec![tag, 1, u as i64, v],
+        None => vec![tag, 0],
+    }
+}
+
+/// take ownership of a returned value: record it and forget it (it is not destroyed by the world)
+fn ret<T: Tokish>(t: T) -> (u64, i64) {
+    let r = (t.uid(), t.val());
+    std::mem::forget(t);
+    r
+}
+
+fn with_comp<T: Tokish>(ex: &mut Exec, e: Entity, uid: u64, val: i64, lazy: bool) {
+    if lazy {
+        let lz = ex.world.read_resource::<LazyUpdate>();
+        lz.insert(e, T::mk(uid, val));
+    } else {
+        let mut st = ex.world.write_storage::<T>();
+        st.insert(e, T::mk(uid, val)).unwrap();
+    }
+}
+
+fn st_op<T: Tokish>(ex: &mut Exec, code: i64, p: &[i64]) -> Out {
+    let e = if matches!(code, 30 | 31 | 32 | 33 | 34 | 41 | 42) {
+        match ex.hs.get(p[1].max(0) as usize).copied() {
+            Some(e) if p[1] >= 0 => Some(e),
+            _ => return vec![8],
+        }
+    } else {
+        None
+    };
+    match code {
+        30 => {
+            let mut st = ex.world.write_storage::<T>();
+            match st.insert(e.unwrap(), T::mk(p[2] as u64, p[3])) {
+                Ok(None) => vec![11, 0],
+                Ok(Some(old)) => {
+                    let (u, v) = ret(old);
+                    vec![11, 1, u as i64, v]
+                }
+                Err(specs::error::Error::WrongGeneration(w)) => vec![11, 2, w.actual_gen.id() as i64],
+                Err(_) => vec![11, 3],
+            }
+        }
+        31 => {
+            let st = ex.world.read_storage::<T>();
+            opt_tok(12, st.get(e.unwrap()).map(|t| (t.uid(), t.val())))
+        }
+        32 => {
+            let mut st = ex.world.write_storage::<T>();
+            let touch = p[2] != 0;
+            let write = p[3] != 0;
+            let r = match st.get_mut(e.unwrap()) {
+                Some(mut a) => {
+                    let old = (a.uid(), a.val());
+                    if touch || write {
+                        let r = a.access_mut();
+                        if write {
+                            r.set_val(p[4]);
+                        }
+                    }
+                    Some(old)
+                }
+                None => None,
+            };
+            opt_tok(12, r)
+        }
+        33 => {
+            let mut st = ex.world.write_storage::<T>();
+            opt_tok(12, st.remove(e.unwrap()).map(ret))
+        }
+        34 => {
+            let st = ex.world.read_storage::<T>();
+            vec![4, st.contains(e.unwrap()) as i64]
+        }
+        35 => vec![13, ex.world.read_storage::<T>().count() as i64],
+        36 => vec![4, ex.world.read_storage::<T>().is_empty() as i64],
+        37 => {
+            let st = ex.world.read_storage::<T>();
+            let ids: Vec<u32> = st.mask().iter().collect();
+            let mut o = vec![14, ids.len() as i64];
+            o.extend(ids.iter().map(|&i| i as i64));
+            o
+        }
+        39 => {
+            ex.world.write_storage::<T>().clear();
+            vec![7]
+        }
+        40 => {
+            let mut st = ex.world.write_storage::<T>();
+            let l: Vec<(u64, i64)> = st.drain().join().map(ret).collect();
+            let mut o = vec![15, l.len() as i64];
+            for (u, v) in l {
+                o.push(u as i64);
+                o.push(v);
+            }
+            o
+        }
+        41 => {
+            let mut st = ex.world.write_storage::<T>();
+            let sub = p[2];
+            let (u, v) = (p[3] as u64, p[4]);
+            // the value offered to the entry is constructed before the call, as user code would
+            let offered = if sub == 1 || sub == 2 { Some(T::mk(u, v)) } else { None };
+            match st.entry(e.unwrap()) {
+                Err(w) => {
+                    drop(offered);
+                    vec![16, 2, w.actual_gen.id() as i64]
+                }
+                Ok(entry) => match sub {
+                    0 => match entry {
+                        StorageEntry::Occupied(o) => {
+                            let t = o.get();
+                            vec![16, 1, t.uid() as i64, t.val()]
+                        }
+                        StorageEntry::Vacant(_) => vec![16, 0],
+                    },
+                    1 => {
+                        let a = entry.or_insert(offered.unwrap());
+                        vec![16, 1, a.uid() as i64, a.val()]
+                    }
+                    2 => match entry.replace(offered.unwrap()) {
+                        Some(old) => {
+                            let (u, v) = ret(old);
+                            vec![16, 1, u as i64, v]
+                        }
+                        None => vec![16, 0],
+                    },
+                    3 => match entry {
+                        StorageEntry::Occupied(o) => {
+                            let (u, v) = ret(o.remove());
+                            vec![16, 1, u as i64, v]
+                        }
+                        StorageEntry::Vacant(_) => vec![16, 0],
+                    },
+                    _ => match entry {
+                        StorageEntry::Occupied(mut o) => {
+                            let mut a = o.get_mut();
+                            let old = (a.uid(), a.val());
+                            a.access_mut().set_val(v);
+                            vec![16, 1, old.0 as i64, old.1]
+                        }
+                        StorageEntry::Vacant(_) => vec![16, 0],
+                    },
+                },
+            }
+        }
+        42 => {
+            let mut st = ex.world.write_storage::<T>();
+            let e = e.unwrap();
+            // both textual copies of get_mut_or_default
+            let r = if p[1] % 2 == 0 {
+                GenericWriteStorage::get_mut_or_default(&mut st, e).map(|a| (a.uid(), a.val()))
+            } else {
+                let mut r = &mut st;
+                GenericWriteStorage::get_mut_or_default(&mut r, e).map(|a| (a.uid(), a.val()))
+            };
+            opt_tok(12, r)
+        }
+        50 => {
+            unreachable!()
+        }
+        _ => vec![8],
+    }
+}
+
+fn slice_op(ex: &mut Exec, sid: i64) -> Out {
+    match sid {
+        0 => {
+            let st = ex.world.read_storage::<CV>();
+            let s = st.as_slice();
+            let ids: Vec<u32> = st.mask().iter().collect();
+            let mut o = vec![17, 1, s.len() as i64, ids.len() as i64];
+            for i in ids {
+                // SAFETY: the mask says the slot is initialised
+                let t = unsafe { s[i as usize].assume_init_ref() };
+                o.push(t.uid as i64);
+                o.push(t.val);
+            }
+            o
+        }
+        1 => {
+            let st = ex.world.read_storage::<CD>();
+            let s = st.as_slice();
+            let mut o = vec![17, 2, s.len() as i64];
+            for t in s {
+                o.push(t.uid as i64);
+                o.push(t.val);
+            }
+            o
+        }
+        2 => {
+            let st = ex.world.read_storage::<CT>();
+            let s = st.as_slice();
+            let mut o = vec![17, 2, s.len() as i64];
+            for t in s {
+                o.push(t.uid as i64);
+                o.push(t.val);
+            }
+            o
+        }
+        _ => {
+            // the wrappers have no slice access; the storage must still be registered
+            fn touch<T: Tokish>(ex: &mut Exec) {
+                let _ = ex.world.read_storage::<T>();
+            }
+            by_sid!(sid, touch, ex);
+            vec![17, 0]
+        }
+    }
+}
+
+fn tracked_op<T: Tokish>(ex: &mut Exec, sid: i64, code: i64, p: &[i64]) -> Out
+where
+    T::Storage: Tracked,
+{
+    match code {
+        70 => {
+            let r = ex.world.write_storage::<T>().register_reader();
+            let v = ex.readers.entry(sid).or_default();
+            v.push(r);
+            vec![19, (v.len() - 1) as i64]
+        }
+        71 => {
+            let st = ex.world.read_storage::<T>();
+            let k = p[1];
+            match ex.readers.get_mut(&sid).and_then(|v| if k >= 0 { v.get_mut(k as usize) } else { None }) {
+                Some(r) => {
+                    let evs: Vec<ComponentEvent> = st.channel().read(r).copied().collect();
+                    let mut o = vec![18, evs.len() as i64];
+                    for ev in evs {
+                        match ev {
+                            ComponentEvent::Inserted(i) => o.extend([0, i as i64]),
+                            ComponentEvent::Modified(i) => o.extend([1, i as i64]),
+                            ComponentEvent::Removed(i) => o.extend([2, i as i64]),
+                        }
+                    }
+                    o
+                }
+                None => vec![8],
+            }
+        }
+        72 => {
+            ex.world.write_storage::<T>().set_event_emission(p[1] != 0);
+            vec![7]
+        }
+        _ => vec![8],
+    }
+}
+
+macro_rules! by_tracked_sid {
+    ($sid:expr, $f:ident, $($a:expr),*) => {
+        match $sid {
+            6 => $f::<FV>($($a),*), 7 => $f::<FD>($($a),*), 8 => $f::<FT>($($a),*),
+            9 => $f::<FH>($($a),*), 10 => $f::<FB>($($a),*),
+            11 => $f::<GV>($($a),*), 12 => $f::<GD>($($a),*), 13 => $f::<GT>($($a),*),
+            14 => $f::<GH>($($a),*), 15 => $f::<GB>($($a),*),
+            _ => panic!("not a tracked storage"),
+        }
+    };
 }
 
 impl Exec {
-    fn new() -> Self {
-        Exec { world: World::new(), hs: Vec::new() }
+    pub fn new() -> Self {
+        Exec { world: World::new(), hs: Vec::new(), readers: HashMap::new() }
     }
 
     fn h(&self, k: i64) -> Option<Entity> {
-        if k < 0 { return None; }
+        if k < 0 {
+            return None;
+        }
         self.hs.get(k as usize).copied()
     }
 
-    fn step(&mut self, code: i64, p: &[i64]) -> Out {
-        match (code, p.len()) {
-            (1, _) => {
-                let e = self.world.create_entity().build();
+    /// (sid, uid, val) triples attached by a builder
+    fn comps(p: &[i64]) -> Vec<(i64, u64, i64)> {
+        p.chunks(3).filter(|c| c.len() == 3).map(|c| (c[0], c[1] as u64, c[2])).collect()
+    }
+
+    fn attach(&mut self, e: Entity, cs: &[(i64, u64, i64)], lazy: bool) {
+        for &(sid, u, v) in cs {
+            by_sid!(sid, with_comp, self, e, u, v, lazy);
+        }
+    }
+
+    pub fn step(&mut self, code: i64, p: &[i64]) -> Out {
+        match code {
+            1 => {
+                // world.create_entity().with(..).build(): `with` fetches a WriteStorage and inserts
+                let cs = Self::comps(p);
+                let e = {
+                    let mut b = self.world.create_entity();
+                    for &(sid, u, v) in &cs {
+                        fn w<'a, T: Tokish>(b: EntityBuilder<'a>, u: u64, v: i64) -> EntityBuilder<'a> {
+                            b.with(T::mk(u, v))
+                        }
+                        b = by_sid!(sid, w, b, u, v);
+                    }
+                    b.build()
+                };
                 self.hs.push(e);
                 enc_ents(1, &[e])
             }
+            _ => self.step2(code, p),
+        }
+    }
+
+    fn step2(&mut self, code: i64, p: &[i64]) -> Out {
+        match (code, p.len()) {
             (2, _) => {
+                let cs = Self::comps(p);
                 let e = {
-                    let b = self.world.create_entity();
+                    let mut b = self.world.create_entity();
                     let e = b.entity;
+                    for &(sid, u, v) in &cs {
+                        fn w<'a, T: Tokish>(b: EntityBuilder<'a>, u: u64, v: i64) -> EntityBuilder<'a> {
+                            b.with(T::mk(u, v))
+                        }
+                        b = by_sid!(sid, w, b, u, v);
+                    }
                     drop(b);
                     e
                 };
@@ -65,21 +394,37 @@ impl Exec {
             }
             (6, n) if n >= 1 => {
                 let built = p[0] != 0;
+                let cs = Self::comps(&p[1..]);
                 let e = {
                     let ents = self.world.entities();
                     let b = ents.build_entity();
                     let e = b.entity;
-                    if built { b.build() } else { drop(b); e }
+                    // EntityResBuilder::with(c, &mut storage) is storage.insert(entity, c).unwrap()
+                    for &(sid, u, v) in &cs {
+                        fn w<T: Tokish>(world: &World, e: Entity, u: u64, v: i64) {
+                            let mut st = world.write_storage::<T>();
+                            st.insert(e, T::mk(u, v)).unwrap();
+                        }
+                        by_sid!(sid, w, &self.world, e, u, v);
+                    }
+                    if built {
+                        b.build()
+                    } else {
+                        drop(b);
+                        e
+                    }
                 };
                 self.hs.push(e);
                 enc_ents(1, &[e])
             }
             (7, _) => {
+                let cs = Self::comps(p);
                 let e = {
                     let lazy = self.world.read_resource::<LazyUpdate>();
                     let ents = self.world.entities();
                     lazy.create_entity(&ents).build()
                 };
+                self.attach(e, &cs, true);
                 self.hs.push(e);
                 enc_ents(1, &[e])
             }
@@ -143,12 +488,60 @@ impl Exec {
                 }
                 o
             }
+            (38, 1) => slice_op(self, p[0]),
+            (50, 1) => {
+                // the registration path is chosen by the storage id so that all four are exercised
+                let sid = p[0];
+                match sid % 4 {
+                    0 => by_sid!(sid, reg, self),
+                    1 => by_sid!(sid, reg_with, self),
+                    2 => by_sid!(sid, reg_setup_read, self),
+                    _ => by_sid!(sid, reg_setup_write, self),
+                }
+                vec![7]
+            }
+            (70, 1) | (71, 2) | (72, 2) => {
+                let sid = p[0];
+                if !is_tracked_sid(sid) {
+                    // the storage must exist (fetch panics otherwise), but it has no channel
+                    fn touch<T: Tokish>(ex: &mut Exec) {
+                        let _ = ex.world.read_storage::<T>();
+                    }
+                    by_sid!(sid, touch, self);
+                    return vec![8];
+                }
+                by_tracked_sid!(sid, tracked_op, self, sid, code, p)
+            }
+            (30, 4) | (31, 2) | (32, 5) | (33, 2) | (34, 2) | (35, 1) | (36, 1) | (37, 1) | (39, 1) | (40, 1)
+            | (41, 5) | (42, 2) => {
+                let sid = p[0];
+                by_sid!(sid, st_op, self, code, p)
+            }
+            (99, 0) => {
+                self.readers.clear();
+                let old = std::mem::replace(&mut self.world, World::new());
+                drop(old);
+                vec![7]
+            }
             _ => vec![8],
         }
     }
 }
 
+fn effects_entry(code: i64, p: &[i64]) -> Out {
+    let (m, mut d) = take_effects();
+    // canonical order where the real order is unspecified (hash map iteration, resource drop order)
+    if code == 99 || (code == 39 && p.len() == 1 && is_hash_sid(p[0])) {
+        d.sort();
+    }
+    let mut o = vec![10, m as i64, d.len() as i64];
+    o.extend(d.iter().map(|&u| u as i64));
+    o
+}
+
 pub fn run_history(ints: &[i64]) -> Vec<Out> {
+    let _ = take_effects();
+    FAULT.with(|f| f.set(0));
     let mut ex = Exec::new();
     let mut tr = Vec::new();
     let mut i = 0;
@@ -167,14 +560,24 @@ pub fn run_history(ints: &[i64]) -> Vec<Out> {
         i += 2 + n;
         let r = catch_unwind(AssertUnwindSafe(|| ex.step(code, p)));
         match r {
-            Ok(o) => tr.push(o),
+            Ok(o) => {
+                tr.push(o);
+                tr.push(effects_entry(code, p));
+            }
             Err(_) => {
                 tr.push(vec![9]);
                 // the world may be in an arbitrary state: stop here
                 std::mem::forget(ex);
+                let _ = take_effects();
                 return tr;
             }
         }
+        if code == 99 {
+            break;
+        }
     }
+    // leaving the history: whatever is still in the world is destroyed now, unobserved
+    drop(ex);
+    let _ = take_effects();
     tr
 }
